@@ -157,6 +157,7 @@ pub fn run_script(flavor: Flavor, s: &Script) -> Trace {
     let _ = val::take_log();
     val::VLD_MODE.store(s.vld_mode, Ordering::SeqCst);
     clock::set(s.start_ns);
+    crate::driver::seeded::set_seed(s.start_ns ^ (s.steps.len() as u64) << 32 ^ s.tick_phase_ns);
     observe::enable(true);
     val::log_enable(true);
     stretto::verif::sched::set_role(1);
